@@ -168,6 +168,8 @@ class CmdMixin(object):
                 props.add("C08")
             if t == "messages":
                 props.add("C01")
+        if isinstance(ctx["msg"], dict) and ctx["msg"].get("type") == "close":
+            props.add("C08")        # "... while every other nameplate and mailbox is left untouched"
         if ctx["cls"] == AMBIGUOUS and not ("C06" in props):
             self.dontcare["footprint-ambiguous"] += 1
             return
